@@ -492,6 +492,26 @@ def block_of_stmt(func, stmt):  # type: ignore[no-untyped-def]
     return _block_of(func, stmt) or []
 
 
+def r_replace_stm(ck: Checker) -> None:
+    """inline_replace_stm substitutes the variable in the WHOLE node it is given, whatever kind that node has"""
+    func = ck.func("normalize:inline_replace_stm")
+    it = ck.interp(func)
+    lit, var, new = func.params()[:3]
+    rets = [(r, st) for r, st in it.returns if r.value is not None]
+    txts = {it.text(r.value, st) for r, st in rets}
+    ok = bool(rets) and all(re.fullmatch(rf"transform_ast\({lit}, 'Variable', \w+\)", t) for t in txts)
+    ck.add("the substitution reaches every variable occurrence of the node (no node kind is passed through)", ok, func, rets[0][0] if rets else func.node, f"returns {sorted(txts)}",
+           "inline_rule removes the assignment `E = B+1` from the body because E was substituted everywhere: a conditional literal `u(X) : e(X,E)` that is handed back unchanged keeps an E that nothing binds any more (it silently becomes local, or the rule unsafe)")
+    cb = [f for q, f in ck.prg.funcs.items() if q.startswith(func.qualname + ".<locals>.")]
+    okc = False
+    for f_ in cb:
+        itc = ck.interp(f_)
+        o = f_.params()[0]
+        vals = {(itc.text(r.value, st), itc.holds(r, f"{o} == {var}")) for r, st in itc.returns if r.value is not None}
+        okc = okc or vals == {(new, True), (o, False)}
+    ck.add("a variable is replaced iff it IS the inlined variable", okc or not cb, func, func.node, f"callback decides by `orig == {var}`: {okc}", "")
+
+
 def r_exline(ck: Checker) -> None:
     func = ck.func("normalize:exline_term")
     it = ck.interp(func)
@@ -642,6 +662,7 @@ RULES = RULES_EXTRA + [
     Rule("C05.one-link-out", P + ("C03", "C11", "C14"), r_one_link_out),
     Rule("C05.TABLE.shape-tests", P + ("C03", "C04"), r_shape_predicates),
     Rule("C05.replace-stms", P, r_replace_stms),
+    Rule("C05.replace-stm", P + ("C04",), r_replace_stm),
     Rule("C05.TABLE.equality", P, r_equality_table),
     Rule("C05.C4.local-only", P + ("C04",), r_local_only),
     Rule("C05.C6.inline-rule", P, r_inline_rule),
